@@ -120,17 +120,27 @@ def fixed_cases():
                      ({"permit_obsolete_folding": False}, [("Foo", " 1\r\n  folded")]),
                      ({"header_map": "dangerous"}, [("X-A", " 1"), ("X_A", " 2")]),
                      ({"header_map": "refuse"}, [("X_A", " 2")]),
+                     # names that differ from a specially treated one by '-' / '_' only are different fields
+                     ({"header_map": "dangerous"}, [("Content-Type", " text/plain"), ("Content_Type", " application/json")]),
+                     ({"header_map": "dangerous"}, [("Content_Length", " 7")]),
+                     ({"header_map": "dangerous"}, [("Content_Type", " x/y"), ("Host_", " h2"), ("Expect_", " 100-continue")]),
+                     ({"header_map": "drop"}, [("Content_Type", " x/y"), ("Content-Type", " a/b")]),
+                     ({}, [("Script-Name", " /unsafe")]),
+                     ({"header_map": "dangerous"}, [("Script-Name", " /unsafe"), ("X-Y", " 1")]),
                      ({"limit_request_fields": 2}, [("A", "1"), ("B", "2"), ("C", "3")]),
                      ({"limit_request_field_size": 10}, [("A", " 123456789012")]),
                      ({"limit_request_line": 10}, [])):
         cases.append({"kind": KINDS[n % 3], "cfg": over, "peer": P_OUT, "data": request(b"/unsafe/x", hs), "tag": ("switches",)})
+        if hs and hs[0][0] == "Script-Name":
+            cases.append({"kind": KINDS[(n + 1) % 3], "cfg": over, "peer": P_LOOP, "data": request(b"/unsafe/x", hs), "tag": ("switches",)})
         n += 1
     return cases
 
 
 ALPHABET = [b"/", b"/", b"a", b"b", b"%41", b"%2F", b"%2f", b"%", b"%4", b"%zz", b"?", b"#", b":", b"//", b"@", b"[", b"]", b";",
             b"=", b"&", b"+", b"\xe9", b"\xff", b"%E9", b"%00", b"%25", b".", b"..", b"*", b"~", b"http:", b"1"]
-HNAMES = ["Foo", "foo", "FOO", "X-Bar", "x-bar", "Content-Type", "Content-Length", "Accept", "X_Us", "Host", "A", "a"]
+HNAMES = ["Foo", "foo", "FOO", "X-Bar", "x-bar", "Content-Type", "Content-Length", "Accept", "X_Us", "Host", "A", "a",
+          "Content_Type", "Content_Length", "Script-Name", "X-Us", "content_type"]
 HVALS = [" 1", " 2", "3", "", " a,b", " \xe9", " x y ", "\t t\t", " 0", " 12", " AbC", " \xc9\xe9", "\x0bq\xa0"]
 
 
